@@ -22,7 +22,7 @@ var tap *tapTM
 // check run for hours: once it is used up the remaining waits of the case are short.
 const (
 	watchdogMax  = 20 * time.Second
-	caseBudget   = 45 * time.Second
+	caseBudget   = 25 * time.Second
 	shortBudget  = 6 * time.Second // per case after several cases ran out of budget
 	watchdogTiny = 300 * time.Millisecond
 )
@@ -210,7 +210,9 @@ func inProc(h *handle, f func(p *actors.Probe) error) (ran bool, err error) {
 	}
 }
 
-// waitDead waits for the Terminate callback to have finished and the pid to be unknown
+// waitDead waits for the Terminate callback of the process to be over. On every
+// termination path unregisterProcess (which removes the pid, the name, ...) runs
+// before that callback, so from here on the oracles may demand that everything is gone.
 func waitDead(h *handle) bool {
 	t := time.NewTimer(wd())
 	defer t.Stop()
@@ -219,13 +221,7 @@ func waitDead(h *handle) bool {
 	case <-t.C:
 		return false
 	}
-	return hk.WaitUntil(wd(), func() bool {
-		if !h.inst.Quiet() {
-			return false
-		}
-		_, err := node.ProcessInfo(h.pid)
-		return err != nil
-	})
+	return hk.WaitUntil(wd(), func() bool { return h.inst.Quiet() })
 }
 
 // received reports whether the process logged ping id
